@@ -5,7 +5,7 @@
   `Nat` digits `< B` with the wrapping arithmetic of the release build written out (`% B`);
   the theorems of NB.Props.C05 show that no wrap-around ever loses information.  `monty_modpow`
   keeps the padding, the `rr` constant, the `2^window`-entry table, the windows taken from the
-  top of every exponent digit, the squarings skipped on the very first window, the conversion
+  top of every exponent digit, the `squarings` squarings per window skipped on the very first window, the conversion
   out of Montgomery form and the "one last reduction".  BigUint operators used by the Rust code
   (`x %= m`, `1 << k`, `% m`, `>=`, `-=`) are taken at value level (C01–C03, C07).
 -/
@@ -137,23 +137,25 @@ def tableLoop (m : List Nat) (k n : Nat) (p1 : List Nat) : Nat → List Nat → 
       | .error e => .error e
       | .ok rest => .ok (r :: rest)
 
-/-- four Montgomery squarings, exactly as written in the source (zz, z, zz, z) -/
-def fourSquarings (m : List Nat) (k n : Nat) (z : List Nat) : Except Panic (List Nat) :=
-  match montgomery z z m k n with
-  | .error e => .error e
-  | .ok zz => match montgomery zz zz m k n with
+/-- `s` Montgomery squarings in a row, as written in the source: the product goes to the other buffer
+    (`zz = montgomery(&z, &z, …)`, then `z = montgomery(&zz, &zz, …)` resp. `mem::swap(&mut z, &mut zz)`),
+    so each step squares the result of the previous one.  `s` is the extracted `P.squarings`
+    (the number of squaring statements, times the loop count if they sit in a `for _ in 0..N`). -/
+def squaringsN (m : List Nat) (k n : Nat) : Nat → List Nat → Except Panic (List Nat)
+  | 0, z => .ok z
+  | s + 1, z =>
+    match montgomery z z m k n with
     | .error e => .error e
-    | .ok z => match montgomery z z m k n with
-      | .error e => .error e
-      | .ok zz => montgomery zz zz m k n
+    | .ok zz => squaringsN m k n s zz
 
 /-- the `while j < BITS` loop over one exponent digit.  `cnt` = iterations still to run
-    (`⌈(BITS - j) / w⌉`, fixed when the loop is entered), `first` = `i == y.len() - 1`. -/
-def windowLoop (w : Nat) (m : List Nat) (k n : Nat) (powers : List (List Nat)) (first : Bool) :
+    (`⌈(BITS - j) / w⌉`, fixed when the loop is entered), `first` = `i == y.len() - 1`, `sq` = the
+    number of squarings per window (`P.squarings`). -/
+def windowLoop (w sq : Nat) (m : List Nat) (k n : Nat) (powers : List (List Nat)) (first : Bool) :
     Nat → Nat → Nat → List Nat → Except Panic (List Nat)
   | 0, _, _, z => .ok z
   | cnt + 1, j, yi, z =>
-    let zq := if ¬ first ∨ j ≠ 0 then fourSquarings m k n z else .ok z
+    let zq := if ¬ first ∨ j ≠ 0 then squaringsN m k n sq z else .ok z
     match zq with
     | .error e => .error e
     | .ok z =>
@@ -162,18 +164,18 @@ def windowLoop (w : Nat) (m : List Nat) (k n : Nat) (powers : List (List Nat)) (
       | some p =>
         match montgomery z p m k n with
         | .error e => .error e
-        | .ok zz => windowLoop w m k n powers first cnt (j + w) ((yi <<< w) % B) zz
+        | .ok zz => windowLoop w sq m k n powers first cnt (j + w) ((yi <<< w) % B) zz
 
 /-- `for i in (0..y.len()).rev()`: `yrev` are the exponent digits from the top; the digit with
     index `i` is the first one processed exactly when nothing has been processed yet -/
-def digitLoop (w : Nat) (m : List Nat) (k n : Nat) (powers : List (List Nat)) (ylen : Nat) :
+def digitLoop (w sq : Nat) (m : List Nat) (k n : Nat) (powers : List (List Nat)) (ylen : Nat) :
     List Nat → List Nat → Except Panic (List Nat)
   | [], z => .ok z
   | yi :: rest, z =>
     let i := rest.length
-    match windowLoop w m k n powers (i == ylen - 1) ((BITS + w - 1) / w) 0 yi z with
+    match windowLoop w sq m k n powers (i == ylen - 1) ((BITS + w - 1) / w) 0 yi z with
     | .error e => .error e
-    | .ok z => digitLoop w m k n powers ylen rest z
+    | .ok z => digitLoop w sq m k n powers ylen rest z
 
 /-- `monty_modpow(x, y, m)`; operands are the stored digit vectors -/
 def montyModpow (P : Params) (x y m : List Nat) : Except Panic (List Nat) :=
@@ -203,7 +205,7 @@ def montyModpow (P : Params) (x y m : List Nat) : Except Panic (List Nat) :=
           | .ok rest =>
             let powers := p0 :: p1 :: rest
             let z := resize p0 n
-            match digitLoop w m k n powers y.length y.reverse z with
+            match digitLoop w P.squarings m k n powers y.length y.reverse z with
             | .error e => .error e
             | .ok z =>
               match montgomery z one m k n with
